@@ -322,7 +322,7 @@ pub fn check(s: &'static dyn Proto, c: &Case, st: &mut Stats, _k: &KnownFindings
 pub const BUDGET: Budget = Budget {
     quick: (160, 60, 20),
     thorough: (4000, 1200, 400),
-    shrink: 100,
+    shrink: 30,
 };
 
 pub fn run(cfg: &RunCfg) -> (Outcome, EvidenceExtra) {
